@@ -18,7 +18,7 @@ from prop_C04 import NOISE
 
 LEVEL = 'exploration'
 RULE = ('documents are produced four ways and each is traversed completely by the predicate of harness/cpp/dump.h '
-        '(Dumper::invariants, public members only): (1) every single structural edit (xmlmut.py) of four seed documents, through '
+        '(Dumper::invariants, public members only): (0) a list of degenerate inputs (processes / templates without states, init or name, empty documents, systems without templates); (1) every single structural edit (xmlmut.py) of four seed documents, through '
         'DocumentBuilder alone and through the Document* overload, both syntax switches; (2) generated abstract models '
         '(gen_model.py), clean, as XML and as XTA; (3) the same models after ONE recovery-provoking mutation: duplicate '
         'location/variable/function/template/parameter/select/instance/process names, a location named like a variable, a '
@@ -284,6 +284,34 @@ def gen_worker(chk, wi, nw):
     return stats
 
 
+DEGENERATE = [
+    ('xta-buffer', 'process T() { }\nsystem T;\n'), ('xta-buffer', 'process T() { }\n'), ('xta-buffer', 'process T(int p, const int q) { }\nA = T(1, 2);\nsystem A;\n'),
+    ('xta-buffer', 'int x;\nprocess T() { }\nprocess U() { state s; init s; }\nsystem T, U;\n'), ('xta-buffer', 'process T() { state s; init s; }\n'),
+    ('xta-buffer', 'system T;\n'), ('xta-buffer', ''), ('xta-buffer', 'process T() { state s; init s; trans s -> s { }; }\nsystem T, T;\n'),
+    ('xml-buffer', '<nta><declaration></declaration><template><name>T</name></template><system>system T;</system></nta>'),
+    ('xml-buffer', '<nta><declaration></declaration><template><name>T</name><location id="a"/></template><system>system T;</system></nta>'),
+    ('xml-buffer', '<nta><declaration></declaration><template><name>T</name><init ref="a"/></template><system>system T;</system></nta>'),
+    ('xml-buffer', '<nta><template><name>T</name><location id="a"/><init ref="a"/></template><system>system T;</system></nta>'),
+    ('xml-buffer', '<nta><declaration></declaration><template><name>T</name><location id="a"/><init ref="a"/></template></nta>'),
+    ('xml-buffer', '<nta><declaration></declaration><system>system T;</system></nta>'), ('xml-buffer', '<nta></nta>'), ('xml-buffer', '<nta/>'),
+    ('xml-buffer', '<nta><declaration></declaration><template><name>T</name><branchpoint id="b"/><init ref="b"/></template><system>system T;</system></nta>'),
+]
+
+
+def degenerate_worker(chk, wi, nw):
+    """templates without states / init / name, empty documents, systems without templates - through both builders"""
+    stats = common.Stats()
+    orc = oracle.Oracle(os.path.join(chk.workdir, 'd%d' % wi), cpu_limit=20)
+    for k, (entry, text) in enumerate(DEGENERATE):
+        if k % nw != wi:
+            continue
+        v = account(chk, stats, orc.request(steps_for(text, entry)), text, entry, ['degenerate', 'entry:' + entry.split('-')[0]], {'degenerate': text[:200]})
+        if v:
+            stats.violations.append({'descriptor': v[0], 'what': v[1], 'case': v[2]})
+    orc.close()
+    return stats
+
+
 def confirm(case):
     if case.get('kind') == 'fuzz':
         import c01_fuzz
@@ -319,6 +347,7 @@ def run(chk):
     if 'replay' in layers:
         run_replays(chk)
     if 'enum' in layers:
+        chk.run_workers(degenerate_worker)
         chk.run_workers(enum_worker)
     if 'gen' in layers:
         chk.run_workers(gen_worker)
